@@ -6,7 +6,9 @@
       taurex/contributions/simpleclouds.py   SimpleCloudsContribution.contribute
       taurex/model/transmission.py           compute_path_length_old, compute_path_length, compute_absorption,
                                              path_integral
-      taurex/util/geometry.py                parallel_vector
+      taurex/util/geometry.py                parallel_vector, normalize, compute_line_3d, multi_dot, compute_intersection_3d,
+                                             compute_path_length_3d
+      taurex/data/planet.py                  BasePlanet.compute_path_length
   The theorems below state, for EVERY carrier (no algebra is used: only the shape of the loops is reasoned about, by
   induction), that each regenerated definition computes the hand-written model function of
   `TaurexModel/Transmission.lean` that the C01 theorems are about and that `driver_c01` executes.  A source change that
@@ -302,6 +304,301 @@ theorem src_path_integral_new (n nwn total : Nat) (ht : 0 < total) (rp rs : α) 
   · rw [h.2 wn hwn]
     simp only [modelDepth, modelTrans, chord_new, if_true]
     exact depth_congr rp rs n z dz _ _ (fun l hl => by rw [hp l hl])
+
+/-! ### the 3-D line/sphere geometry behind `new_path_method=True` (`taurex/util/geometry.py`, `BasePlanet.compute_path_length`)
+
+  Model: `TaurexModel/Geometry.lean` (vectors as records `V3`, one ray and one sphere at a time).  The code works on whole
+  `(3, nR)` arrays of column vectors; `rows f` is the array whose column `j` is `f j`.  Hypotheses of these ties, all explicit:
+    * `h0 : ∀ x, 0 + x = x` — numpy's `np.sum(…, axis=0)` / `np.linalg.norm` are translated as the left fold from `0`, the
+      model writes `x + y + z`; the two agree in every carrier in which `0 + x = x` (ℝ, and IEEE floats up to the sign of zero);
+    * `hfin` — NaN is not a value of the carrier.  In the code `np.sqrt` of a negative discriminant is NaN, it propagates to
+      the sphere's distance, and `np.isfinite` drops the sphere; the translation has `isfinite` as a parameter and the tie
+      INSTANTIATES it: a sphere's distance is finite exactly when its discriminant is `≥ 0` (the model's test);
+    * `hany` — some sphere is hit by some ray (otherwise `compute_intersection_3d` returns `None`);
+    * `hnc` — no ray crosses the planet itself.  The body of that branch is not translated (the parameter `crossing`: an
+      abstract function of everything the branch reads); its TEST is, and under `hnc` the branch is not entered.  (The model
+      treats that branch ray by ray, the code compares sums over all crossing rays: they are not the same function.) -/
+
+open Taurex.Geometry
+
+/-- row `c` of a column vector, as `rows` lays it out -/
+def comp (c : Nat) (v : V3 α) : α := if c = 1 then v.y else if c = 0 then v.x else v.z
+
+theorem rows_apply (f : Nat → V3 α) (c j : Nat) : rows f c j = comp c (f j) := rfl
+
+theorem fold3 (g : Nat → α) (a : α) : (List.range 3).foldl (fun acc s => acc + g s) a = a + g 0 + g 1 + g 2 := rfl
+
+theorem src_multi_dot (h0 : ∀ x : α, 0 + x = x) (a b : Nat → V3 α) (nR i : Nat) :
+    Gen.SrcC01.multi_dot (rows a) (rows b) nR i = dot (a i) (b i) := by
+  unfold Gen.SrcC01.multi_dot
+  rw [fold3, h0]
+  rfl
+
+@[simp] theorem comp_zero (v : V3 α) : comp 0 v = v.x := rfl
+@[simp] theorem comp_one (v : V3 α) : comp 1 v = v.y := rfl
+@[simp] theorem comp_two (v : V3 α) : comp 2 v = v.z := rfl
+
+theorem comp_ite (c : Nat) (p : Prop) [Decidable p] (a b : V3 α) : comp c (if p then a else b) = if p then comp c a else comp c b := by
+  split <;> rfl
+
+theorem src_normalize (h0 : ∀ x : α, 0 + x = x) (v : Nat → V3 α) (nR : Nat) :
+    Gen.SrcC01.normalize (rows v) nR = rows (fun j => Geometry.normalize (v j)) := by
+  unfold Gen.SrcC01.normalize
+  funext c j
+  simp only [fold3, h0, rows_apply, comp_zero, comp_one, comp_two]
+  have hn : sqrt ((v j).x * (v j).x + (v j).y * (v j).y + (v j).z * (v j).z) = norm (v j) := rfl
+  simp only [hn, Geometry.normalize, Bool.and_eq_true, decide_eq_true_eq, comp_ite]
+  by_cases hz : norm (v j) ≤ 0 ∧ 0 ≤ norm (v j)
+  · simp only [hz, and_self, if_true]
+  · simp only [hz, if_false]
+    unfold comp
+    split
+    · rfl
+    · split <;> rfl
+
+theorem rows_sub (t v : Nat → V3 α) : (fun i j => rows t i j - rows v i j) = rows (fun j => (t j).sub (v j)) := by
+  funext c j
+  simp only [rows_apply]
+  unfold comp V3.sub
+  split
+  · rfl
+  · split <;> rfl
+
+theorem src_compute_line_3d (h0 : ∀ x : α, 0 + x = x) (v t : Nat → V3 α) (nR : Nat) :
+    Gen.SrcC01.compute_line_3d (rows v) (rows t) nR
+      = (rows (fun j => (line3d (v j) (t j)).1), rows (fun j => (line3d (v j) (t j)).2)) := by
+  unfold Gen.SrcC01.compute_line_3d line3d
+  simp only [rows_sub, src_normalize h0]
+
+/-- the discriminant of the planet itself for one ray (the test of the "planet crossing" branch) -/
+def deltaP (R : α) (u o : V3 α) : α := dot u o * dot u o - normSq o + R * R
+
+theorem comp_add (c : Nat) (a b : V3 α) : comp c (a.add b) = comp c a + comp c b := by
+  unfold comp V3.add; split
+  · rfl
+  · split <;> rfl
+
+theorem comp_smul (c : Nat) (d : α) (a : V3 α) : comp c (V3.smul d a) = d * comp c a := by
+  unfold comp V3.smul; split
+  · rfl
+  · split <;> rfl
+
+theorem any_range_true (n : Nat) (p : Nat → Bool) (i : Nat) (hi : i < n) (h : p i = true) : (List.range n).any p = true :=
+  List.any_eq_true.2 ⟨i, List.mem_range.2 hi, h⟩
+
+theorem any_range_false (n : Nat) (p : Nat → Bool) (h : ∀ i < n, p i = false) : (List.range n).any p = false := by
+  rw [Bool.eq_false_iff]
+  intro ht
+  obtain ⟨i, hi, hp⟩ := List.any_eq_true.1 ht
+  rw [h i (List.mem_range.1 hi)] at hp
+  exact Bool.false_ne_true hp
+
+theorem src_compute_intersection_3d (h0 : ∀ x : α, 0 + x = x) (R : α) (h : Nat → α) (u o : Nat → V3 α)
+    (crossing : (Nat → α) → (Nat → Bool) → (Nat → α) → (Nat → Nat → α) → (Nat → Nat → α) → (Nat → Nat → Nat → Nat → α) → (Nat → Nat → Nat → Nat → α))
+    (nH nR : Nat) (nan : α)
+    (hany : ∃ j < nH, ∃ i < nR, 0 < (intersect R (h j) (u i) (o i)).delta)
+    (hnc : ∀ i < nR, ¬ 0 < deltaP R (u i) (o i)) :
+    ∃ S, Gen.SrcC01.compute_intersection_3d R h (rows u) (rows o) crossing nH nR nan = some S ∧
+      ∀ j < nH, ∀ i < nR, ∀ c, S 0 c j i = comp c (intersect R (h j) (u i) (o i)).near ∧
+        S 1 c j i = comp c (intersect R (h j) (u i) (o i)).far := by
+  unfold Gen.SrcC01.compute_intersection_3d
+  extract_lets h' sd dotres delta Sz z3 Snan filt d1a d1 sol1 d2a d2 sol2 v1 v2 mf af bf Sa1 Sa2 Sa Sb1 Sb2 Sb dP fP Sc
+  have hdot : ∀ i, dotres i = dot (u i) (o i) * dot (u i) (o i) - normSq (o i) := by
+    intro i
+    simp only [dotres, sd, src_multi_dot h0, fold3, h0, rows_apply, comp_zero, comp_one, comp_two]
+    rfl
+  have hdelta : ∀ j i, delta j i = (intersect R (h j) (u i) (o i)).delta := by
+    intro j i
+    simp only [delta, hdot, h']
+    rfl
+  -- some sphere is hit: the function does not return None
+  have hsome : (!(List.range nH).any fun j => (List.range nR).any fun i => filt j i) = false := by
+    obtain ⟨j, hj, i, hi, hd⟩ := hany
+    rw [Bool.not_eq_false']
+    refine any_range_true nH _ j hj (any_range_true nR _ i hi ?_)
+    simp only [filt, hdelta, decide_eq_true_eq]
+    exact hd
+  rw [if_neg (by rw [hsome]; exact Bool.false_ne_true)]
+  refine ⟨_, rfl, ?_⟩
+  -- no ray crosses the planet: the crossing branch is not entered
+  have hcross : ((List.range nR).any fun i => fP i) = false := by
+    refine any_range_false nR _ fun i hi => ?_
+    simp only [fP, dP, hdot, decide_eq_false_iff_not]
+    exact hnc i hi
+  have hSc : Sc = Sb := if_neg (by rw [hcross]; exact Bool.false_ne_true)
+  rw [hSc]
+  intro j hj i hi c
+  -- which of the two stored points is nearer
+  have hsel : Sb 0 c j i = (if mf j i = true then sol1 c j i else sol2 c j i) ∧
+      Sb 1 c j i = (if mf j i = true then sol2 c j i else sol1 c j i) := by
+    cases hm : mf j i
+    · have hb : ((List.range nH).any fun a => (List.range nR).any fun b => bf a b) = true :=
+        any_range_true nH _ j hj (any_range_true nR _ i hi (by simp only [bf, hm]; rfl))
+      simp only [Sb, hb, if_true, Sb2, Sb1, bf, hm, Bool.not_false, and_true, if_true, Bool.false_eq_true, if_false]
+      simp
+    · have ha : ((List.range nH).any fun a => (List.range nR).any fun b => af a b) = true :=
+        any_range_true nH _ j hj (any_range_true nR _ i hi (by simp only [af]; exact hm))
+      have hSa : Sa 0 c j i = sol1 c j i ∧ Sa 1 c j i = sol2 c j i := by
+        simp only [Sa, ha, if_true, Sa2, Sa1, af, hm, and_true, if_true]
+        constructor <;> simp
+      have hSb : ∀ r, Sb r c j i = Sa r c j i := by
+        intro r
+        simp only [Sb]
+        split
+        · simp only [Sb2, Sb1, bf, hm, Bool.not_true, Bool.false_eq_true, and_false, if_false]
+        · rfl
+      simp only [hSb, hSa, if_true]
+      exact ⟨trivial, trivial⟩
+  rw [hsel.1, hsel.2]
+  have hd1 : ∀ c, sol1 c j i = comp c ((o i).add (V3.smul (clamp0 (-dot (u i) (o i) + sqrt (intersect R (h j) (u i) (o i)).delta)) (u i))) := by
+    intro c
+    simp only [sol1, d1, d1a, sd, src_multi_dot h0, hdelta, rows_apply, comp_add, comp_smul, clamp0, decide_eq_true_eq]
+  have hd2 : ∀ c, sol2 c j i = comp c ((o i).add (V3.smul (clamp0 (-dot (u i) (o i) - sqrt (intersect R (h j) (u i) (o i)).delta)) (u i))) := by
+    intro c
+    simp only [sol2, d2, d2a, sd, src_multi_dot h0, hdelta, rows_apply, comp_add, comp_smul, clamp0, decide_eq_true_eq]
+  have hv1 : v1 j i = normSq ((o i).sub ((o i).add (V3.smul (clamp0 (-dot (u i) (o i) + sqrt (intersect R (h j) (u i) (o i)).delta)) (u i)))) := by
+    simp only [v1, fold3, h0, rows_apply, comp_zero, comp_one, comp_two, hd1]
+    rfl
+  have hv2 : v2 j i = normSq ((o i).sub ((o i).add (V3.smul (clamp0 (-dot (u i) (o i) - sqrt (intersect R (h j) (u i) (o i)).delta)) (u i)))) := by
+    simp only [v2, fold3, h0, rows_apply, comp_zero, comp_one, comp_two, hd2]
+    rfl
+  have hmf : (mf j i = true) = (v1 j i < v2 j i) := by simp only [mf, decide_eq_true_eq]
+  have hP : ¬ 0 < dot (u i) (o i) * dot (u i) (o i) - normSq (o i) + R * R := hnc i hi
+  simp only [hmf, hv1, hv2, hd1, hd2]
+  unfold intersect
+  simp only [if_neg hP, comp_ite]
+  exact ⟨trivial, trivial⟩
+
+/-- the rows of a list of (length, array) pairs, as lists -/
+def rowLists (L : List (Nat × (Nat → α))) : List (List α) := L.map (fun r => (List.range r.1).map r.2)
+
+theorem getD_map_lt {β γ : Type} (l : List β) (f : β → γ) (k : Nat) (h : k < l.length) (d : γ) (d' : β) :
+    (l.map f).getD k d = f (l.getD k d') := by
+  simp [List.getD_eq_getElem?_getD, List.getElem?_map, List.getElem?_eq_getElem h]
+
+/-- the loop of `compute_path_length_3d` over the lines of sight, for any table of distances `D[j, i]` and any selection
+    mask `F[j, i]`: row `i` holds the first selected distance and the differences of consecutive selected distances -/
+theorem ray_rows (nH nR : Nat) (D : Nat → Nat → α) (F : Nat → Nat → Bool) :
+    rowLists ((List.range' 0 nR).foldl (fun (all_distances : List (Nat × (Nat → α))) (i : Nat) =>
+          let layer_filt : Nat → Bool := fun i__ => (F i__ i)
+          let nsel3__ := ((List.range nH).filter (fun j__ => (layer_filt j__))).length
+          let dists : Nat → α := fun i__ => (D (((List.range nH).filter (fun j__ => (layer_filt j__))).getD i__ 0) i)
+          let final_distances : Nat → α := fun _ => (0 : α)
+          let final_distances : Nat → α := fun i__ => if i__ = 0 then (dists 0) else final_distances i__
+          let final_distances : Nat → α := fun i__ => if 1 ≤ i__ then ((dists (1 + (i__ - 1))) - (dists (i__ - 1))) else final_distances i__
+          let all_distances : List (Nat × (Nat → α)) := all_distances ++ [(nsel3__, final_distances)]
+          all_distances
+        ) [])
+      = (List.range nR).map (fun i =>
+          (List.range (((List.range nH).filter (fun j => F j i)).map (fun j => D j i)).length).map
+            (segs (((List.range nH).filter (fun j => F j i)).map (fun j => D j i)))) := by
+  simp only []
+  rw [foldl_append_singleton]
+  simp only [List.nil_append, rowLists, List.map_map, List.length_map]
+  apply List.map_congr_left
+  intro i _
+  simp only [Function.comp]
+  apply List.map_congr_left
+  intro k hk
+  have hk' : k < ((List.range nH).filter (fun j => F j i)).length := List.mem_range.1 hk
+  unfold segs
+  by_cases h0 : k = 0
+  · subst h0
+    simp only [Nat.le_zero_eq, Nat.succ_ne_zero, if_false, if_true]
+    rw [getD_map_lt _ _ _ hk' 0 0]
+  · have h1 : 1 ≤ k := Nat.one_le_iff_ne_zero.2 h0
+    have e : 1 + (k - 1) = k := by omega
+    simp only [h1, h0, if_true, if_false, e]
+    rw [getD_map_lt _ _ _ hk' 0 0, getD_map_lt _ _ _ (by omega : k - 1 < _) 0 0]
+
+
+theorem src_compute_path_length_3d (h0 : ∀ x : α, 0 + x = x) (R : α) (alt : Nat → α) (v t : Nat → V3 α)
+    (crossing : (Nat → α) → (Nat → Bool) → (Nat → α) → (Nat → Nat → α) → (Nat → Nat → α) → (Nat → Nat → Nat → Nat → α) → (Nat → Nat → Nat → Nat → α))
+    (isfinite : α → Bool) (nH nR : Nat) (nan : α)
+    (hfin : ∀ i < nR, ∀ j < nH,
+      isfinite (hitDistance (intersect R (alt j) (line3d (v i) (t i)).2 (line3d (v i) (t i)).1))
+        = decide (0 ≤ (intersect R (alt j) (line3d (v i) (t i)).2 (line3d (v i) (t i)).1).delta))
+    (hany : ∃ j < nH, ∃ i < nR, 0 < (intersect R (alt j) (line3d (v i) (t i)).2 (line3d (v i) (t i)).1).delta)
+    (hnc : ∀ i < nR, ¬ 0 < deltaP R (line3d (v i) (t i)).2 (line3d (v i) (t i)).1) :
+    ∃ L, Gen.SrcC01.compute_path_length_3d R alt (rows v) (rows t) crossing isfinite nH nR nan = some L ∧
+      rowLists L = (List.range nR).map (fun i =>
+        (List.range (rayDists R nH alt (line3d (v i) (t i)).2 (line3d (v i) (t i)).1).length).map
+          (segs (rayDists R nH alt (line3d (v i) (t i)).2 (line3d (v i) (t i)).1))) := by
+  obtain ⟨S, hS, hpt⟩ := src_compute_intersection_3d h0 R alt (fun i => (line3d (v i) (t i)).2) (fun i => (line3d (v i) (t i)).1)
+    crossing nH nR nan hany hnc
+  unfold Gen.SrcC01.compute_path_length_3d
+  extract_lets uv ut alt' r1 o u inter
+  have hinter : inter = some S := by
+    simp only [inter, o, u, r1, uv, ut, alt', src_compute_line_3d h0]
+    exact hS
+  simp -zeta only [hinter]
+  extract_lets distances filt
+  refine ⟨_, rfl, ?_⟩
+  rw [ray_rows nH nR distances filt]
+  apply List.map_congr_left
+  intro i hi
+  have hi' : i < nR := List.mem_range.1 hi
+  have hdist : ∀ j < nH, distances j i = hitDistance (intersect R (alt j) (line3d (v i) (t i)).2 (line3d (v i) (t i)).1) := by
+    intro j hj
+    simp only [distances, fold3, h0, (hpt j hj i hi' _).1, (hpt j hj i hi' _).2, comp_zero, comp_one, comp_two]
+    rfl
+  have hlist : ((List.range nH).filter (fun j => filt j i)).map (fun j => distances j i)
+      = rayDists R nH alt (line3d (v i) (t i)).2 (line3d (v i) (t i)).1 := by
+    unfold rayDists goodSpheres
+    have hf : (List.range nH).filter (fun j => filt j i)
+        = (List.range nH).filter (fun j => decide (0 ≤ (intersect R (alt j) (line3d (v i) (t i)).2 (line3d (v i) (t i)).1).delta)) := by
+      apply List.filter_congr
+      intro j hj
+      have hj' : j < nH := List.mem_range.1 hj
+      simp only [filt, hdist j hj', hfin i hi' j hj']
+    rw [hf]
+    apply List.map_congr_left
+    intro j hj
+    exact hdist j (List.mem_range.1 (List.mem_filter.1 hj).1)
+  rw [hlist]
+
+/-- the one slice bound of `compute_path_length_3d` (`dists[:-1]`) stays inside the array -/
+theorem src_compute_path_length_3d_shapes (R : α) (alt : Nat → α) (v t : Nat → Nat → α)
+    (crossing : (Nat → α) → (Nat → Bool) → (Nat → α) → (Nat → Nat → α) → (Nat → Nat → α) → (Nat → Nat → Nat → Nat → α) → (Nat → Nat → Nat → Nat → α))
+    (isfinite : α → Bool) (nH nR : Nat) (nan : α) :
+    Gen.SrcC01.compute_path_length_3d_shapes R alt v t crossing isfinite nH nR nan := by
+  unfold Gen.SrcC01.compute_path_length_3d_shapes
+  intros
+  exact Nat.sub_le _ _
+
+/-- `BasePlanet.compute_path_length` hands `self.fullRadius` and its arguments to `compute_path_length_3d` -/
+theorem src_planet_compute_path_length (rp : α) (alt : Nat → α) (v t : Nat → Nat → α)
+    (crossing : (Nat → α) → (Nat → Bool) → (Nat → α) → (Nat → Nat → α) → (Nat → Nat → α) → (Nat → Nat → Nat → Nat → α) → (Nat → Nat → Nat → Nat → α))
+    (isfinite : α → Bool) (nH nR : Nat) (nan : α) :
+    Gen.SrcC01.planet_compute_path_length alt v t crossing isfinite nH nR nan rp
+      = Gen.SrcC01.compute_path_length_3d rp alt v t crossing isfinite nH nR nan := rfl
+
+/-- **the whole 3-D geometry as `TransmissionModel.compute_path_length` calls it** (`src_compute_path_length`: the
+    altitude boundaries `zb[0..n]` and, for tangent layer `l`, the line of sight `parallelVector rp (z[l] + dz[l]/2) max(zb)`):
+    `planet.compute_path_length` returns, row by row, the model's `Geometry.pathRow3d` — what `driver_c01` serves as
+    `c01.paths3d` and the harness compares with `model.path_length` -/
+theorem src_planet_paths (h0 : ∀ x : α, 0 + x = x) (rp : α) (n : Nat) (zb z dz : Nat → α)
+    (crossing : (Nat → α) → (Nat → Bool) → (Nat → α) → (Nat → Nat → α) → (Nat → Nat → α) → (Nat → Nat → Nat → Nat → α) → (Nat → Nat → Nat → Nat → α))
+    (isfinite : α → Bool) (nan : α)
+    (hfin : ∀ l < n, ∀ j < n + 1,
+      isfinite (hitDistance (intersect rp (zb j)
+          (line3d (parallelVector rp (z l + dz l / 2) (arrMax n zb)).1 (parallelVector rp (z l + dz l / 2) (arrMax n zb)).2).2
+          (line3d (parallelVector rp (z l + dz l / 2) (arrMax n zb)).1 (parallelVector rp (z l + dz l / 2) (arrMax n zb)).2).1))
+        = decide (0 ≤ (intersect rp (zb j)
+          (line3d (parallelVector rp (z l + dz l / 2) (arrMax n zb)).1 (parallelVector rp (z l + dz l / 2) (arrMax n zb)).2).2
+          (line3d (parallelVector rp (z l + dz l / 2) (arrMax n zb)).1 (parallelVector rp (z l + dz l / 2) (arrMax n zb)).2).1).delta))
+    (hany : ∃ j < n + 1, ∃ l < n, 0 < (intersect rp (zb j)
+          (line3d (parallelVector rp (z l + dz l / 2) (arrMax n zb)).1 (parallelVector rp (z l + dz l / 2) (arrMax n zb)).2).2
+          (line3d (parallelVector rp (z l + dz l / 2) (arrMax n zb)).1 (parallelVector rp (z l + dz l / 2) (arrMax n zb)).2).1).delta)
+    (hnc : ∀ l < n, ¬ 0 < deltaP rp
+          (line3d (parallelVector rp (z l + dz l / 2) (arrMax n zb)).1 (parallelVector rp (z l + dz l / 2) (arrMax n zb)).2).2
+          (line3d (parallelVector rp (z l + dz l / 2) (arrMax n zb)).1 (parallelVector rp (z l + dz l / 2) (arrMax n zb)).2).1) :
+    ∃ L, Gen.SrcC01.planet_compute_path_length zb
+        (rows (fun l => (parallelVector rp (z l + dz l / 2) (arrMax n zb)).1))
+        (rows (fun l => (parallelVector rp (z l + dz l / 2) (arrMax n zb)).2)) crossing isfinite (n + 1) n nan rp = some L ∧
+      rowLists L = (List.range n).map (fun l => pathRow3d rp n zb z dz l) := by
+  rw [src_planet_compute_path_length]
+  exact src_compute_path_length_3d h0 rp zb _ _ crossing isfinite (n + 1) n nan hfin hany hnc
 
 end
 
